@@ -148,6 +148,8 @@ fn l2_s<const L: usize>(l: &Level2Data<L>) -> String {
         levels_s(&l.bid_price_levels), levels_s(&l.ask_price_levels))
 }
 
+pub fn env_part_pub<const L: usize, E: EnvLike<L>>(e: &E, a: usize) -> String { env_part(e, a) }
+
 fn env_part<const L: usize, E: EnvLike<L>>(e: &E, a: usize) -> String {
     let r = e.records(a);
     format!("E c2={} bp={} ap={} bv={} av={} bva={} boa={} ava={} aoa={} tvs={} g={}",
